@@ -14,17 +14,20 @@ MANIFEST = {
             "order), the header counts them, an n-gram is kept iff its non-tag words pass (single / union / multiple, with "
             "the context option on the n-gram without its last word), copy keeps everything, and a back-off decoder "
             "restricted to the kept n-grams returns the same scores and matched lengths on every sentence over the "
-            "vocabulary. Tie: bin/filter (threads:1) byte-compared with the compiled Lean driver on generated ARPA / raw "
+            "vocabulary. Phrase mode: Tiles (read off a concatenation of one sentence's phrases) implies acceptance by the "
+            "model of BuildGraph's search graph (phrase_sound); the lazy LowerBound evaluation and hashing are tied by exact "
+            "correspondence. Tie: bin/filter (threads:1) byte-compared with the compiled Lean driver on generated ARPA / raw "
             "inputs x vocabulary / sentence files x modes x context x formats; then bin/query on original vs filtered model.",
     "note": "Trusted: Lean kernel + standard axioms; statements in lean/Properties/C11.lean; generators/comparator; "
             "std::sort's unspecified order among equal-size ranges is covered by stating the intersection theorems for every "
             "order of the ranges; hash collisions of boost::unordered_* / MurmurHash are out of scope; phrase mode is tied in "
-            "the stated (soundness) direction only.",
+            "the stated (soundness) direction: tool output >= Tiles lower bound (Lean tilesB = independent Python DP, sampled vs literal "
+            "enumeration) and, absent hash collisions, tool output == search-graph model byte for byte.",
     "technique": "Lean 4 proof over an executable model + differential correspondence with the real CLI tools",
 }
 
 REQUIRED = ["KV.C11.out_sublist", "KV.C11.header_counts", "KV.C11.kept_iff_single", "KV.C11.copy_identity",
-            "KV.C11.kept_iff_union_partial", "KV.C11.kept_iff_multi_partial", "KV.C11.out_sublist_binary",
+            "KV.C11.kept_iff_union", "KV.C11.kept_iff_multi", "KV.C11.out_sublist_binary", "KV.C11.out_sublist_multiple", "KV.C11.header_counts_counter", "KV.C11.phrase_sound", "KV.C11.phrase_sound_multiple", "KV.C11.phrase_sound_union",
             "KV.C11.context_option", "KV.C11.decode_equiv"]
 
 
@@ -147,6 +150,47 @@ def query_case(ctx, env, rng):
     return False
 
 
+def phrase_case(ctx, env, rng):
+    """phrase mode: the tool must keep at least what Tiles obliges (one direction, as the property states)"""
+    case = G.gen_phrase_case(rng, ctx.tier)
+    env["n"] += 1
+    vp = os.path.join(env["work"], "pv%d.txt" % env["n"])
+    mp = os.path.join(env["work"], "pm%d.txt" % env["n"])
+    open(vp, "wb").write(case["vocab"])
+    open(mp, "wb").write(case["model"])
+    st, files, cmd = G.run_filter(env["fbin"], env["work"], "p%d" % env["n"], case["mode"], case["context"], case["fmt"], 1, 1,
+                                  vp, case["model"], timeout=30, phrase=True)
+    nlines = sum(len(s) for s in case["in_sections"])
+    ctx.count(("phrase", case["mode"], case["context"], case["fmt"], case["model"], case["vocab"]),
+              nontrivial=len(case["sents"]) >= 2 and nlines >= 5)
+    ctx.hist("mode", "phrase-" + case["mode"] + ("+context" if case["context"] else ""))
+    ctx.hist("phrase_sentences", len(case["sents"]))
+    replay = {"stream": "filter/phrase", "cmd": cmd, "vocab": case["vocab"].decode("latin-1"),
+              "model": case["model"].decode("latin-1")}
+    if st != "ok":
+        ctx.violation("bin/filter phrase mode fails (%s)" % st, replay)
+        return True
+    d, kind = G.phrase_verdict(case, files, env["drv"], vp, mp, os.path.join(env["work"], "pd%d" % env["n"]))
+    if d is not None:
+        replay["tool"] = {k: v.decode("latin-1")[:3000] for k, v in files.items()}
+        ctx.violation("phrase mode: " + d, replay, no_input=(kind != "tool"))
+        return True
+    # the oracle itself against literal enumeration of concatenations, on a sample
+    for _ in range(3):
+        if not case["sents"]:
+            break
+        ph = rng.choice(case["sents"])
+        sec = rng.choice(case["in_sections"])
+        if not sec or len(ph) > 4:
+            continue
+        g = G.phrase_words([w for w in G.ngram_of_line(rng.choice(sec), case["fmt"]).split(b" ") if w])
+        if g and len(g) <= 4 and G.py_tiles(ph, g) != G.brute_tiles(ph, g):
+            ctx.violation("Tiles oracle disagrees with the enumeration of concatenations", {"phrases": repr(ph), "ngram": repr(g)},
+                          no_input=True)
+            return True
+    return False
+
+
 def run(ctx):
     problems, consts = flow.proof_phase(ctx, "C11", required=REQUIRED, drivers=["drv_C11"])
     ok, bdir, lg = repo.build("tools", targets=["filter", "query"])
@@ -171,6 +215,13 @@ def run(ctx):
                 nviol += 1
                 if nviol >= 5:
                     break
+        np_ = 150 if ctx.tier == "quick" else 2000
+        for pi in range(np_):
+            if nviol >= 5:
+                break
+            if phrase_case(ctx, env, ctx.rng):
+                found = True
+                nviol += 1
         nq = 120 if ctx.tier == "quick" else 1500
         for qi in range(nq):
             if nviol >= 5:
